@@ -280,6 +280,7 @@ theorem segOk_fs_safe (f : String) : ∀ (evs : List Ev) (apps : List Approval),
       simp only [List.mem_cons, reduceCtorEq, false_or] at hm
       exact ih _ hs fn w p hm
     | lp _ _ => exact absurd hs (by simp [segOk])
+    | il _ _ => exact absurd hs (by simp [segOk])
     | cvp _ _ _ => exact absurd hs (by simp [segOk])
     | sn _ _ => exact absurd hs (by simp [segOk])
     | inc _ _ _ _ => exact absurd hs (by simp [segOk])
